@@ -11,9 +11,13 @@ EXTENDS Frames, Json, IOUtils, TLC, TLCExt
 Events == ndJsonDeserialize(IOEnv.TRACE_FILE)
 
 VARIABLES l,        \* next event to consume
-          legacy,   \* the spec's view of encode.DEPRECATED_RABBITMQ_SUPPORT
-          tz        \* process time zone: written by SetTZ, read by nothing (C15)
-vars == << l, legacy, tz >>
+          st        \* the specification's state, a record:
+                    \*   legacy  the spec's view of encode.DEPRECATED_RABBITMQ_SUPPORT (never read from the trace)
+                    \*   tz      process time zone: written by SetTZ, read by NOTHING (that is property C15)
+                    \*   wire, buf, sent, got, used   the byte stream between a sender and a receiver (Stream.tla)
+                    \*   heap    live objects with their mutable containers (Api.tla)
+vars == << l, st >>
+legacy == st.legacy
 
 Has(e, prop) == \E i \in 1..Len(e.p) : e.p[i] = prop
 \* IF (not \/) so that TLC evaluates the judgement as an expression, not as two actions
@@ -68,7 +72,7 @@ EncodeValue(e) ==
            okc => (wire.ok /\ wire.n = Len(e.out.b) /\ SameValue(wire.v, want)))
     /\ Chk(e, "C10", "code_decodes_to_input",
            okc => (e.dec.r = "ok" /\ e.dec.n = Len(e.out.b) /\ SameValue(e.dec.v, want)))
-    /\ UNCHANGED << legacy, tz >>
+    /\ UNCHANGED st
 
 
 \* ---- frame.marshal then frame.unmarshal of the produced bytes ---------------
@@ -113,7 +117,7 @@ RoundTrip(e) ==
     \* C04: bytes equal the reference encoder
     /\ Chk(e, "C04", "accepted", spec.ok => okc)
     /\ Chk(e, "C04", "bytes_equal_reference", (spec.ok /\ okc) => e.out.b = spec.b)
-    /\ UNCHANGED << legacy, tz >>
+    /\ UNCHANGED st
 
 \* ---- fixed-width integer encoders, direct marshal() calls, by_type ----------
 FixedSpec(fn, x) ==
@@ -128,7 +132,7 @@ EncodeFixed(e) ==
     /\ Chk(e, "C11", "fixed_width_accepts_in_range", spec.ok => (okc /\ e.out.b = spec.b))
     /\ Chk(e, "C11", "fixed_width_refuses_with_TypeError", ~spec.ok => (~okc /\ e.out.type = "TypeError"))
     /\ Chk(e, "C04", "bytes_equal_reference", spec.ok => (okc /\ e.out.b = spec.b))
-    /\ UNCHANGED << legacy, tz >>
+    /\ UNCHANGED st
 
 MarshalPart(e) ==
     LET spec == IF e.kind = "props" THEN EncProps(legacy, e.in.props)
@@ -138,13 +142,13 @@ MarshalPart(e) ==
     IN
     /\ Chk(e, "C04", "accepted", spec.ok => okc)
     /\ Chk(e, "C04", "bytes_equal_reference", (spec.ok /\ okc) => e.out.b = spec.b)
-    /\ UNCHANGED << legacy, tz >>
+    /\ UNCHANGED st
 
 EncodeArg(e) ==
     LET spec == EncArg(legacy, e.ty, e.in) okc == e.out.r = "ok" IN
     /\ Chk(e, "C04", "accepted", spec.ok => okc)
     /\ Chk(e, "C04", "bytes_equal_reference", (spec.ok /\ okc) => e.out.b = spec.b)
-    /\ UNCHANGED << legacy, tz >>
+    /\ UNCHANGED st
 
 \* ---- static traces: catalogue (C14), reply codes and constants (C17) --------
 SpecKeys == { Methods[i].cid * 65536 + Methods[i].mid : i \in 1..Len(Methods) }
@@ -152,7 +156,7 @@ SeqSet(q) == { q[i] : i \in 1..Len(q) }
 
 MappingKeys(e) ==
     /\ Chk(e, "C14", "exactly_the_64_indices", SeqSet(e.keys) = SpecKeys /\ e.n = 64 /\ Len(e.keys) = 64)
-    /\ UNCHANGED << legacy, tz >>
+    /\ UNCHANGED st
 
 DefaultOk(got, a) == IF a.def.t = "nodef" THEN got.t = "none" ELSE SameValue(got, a.def)
 
@@ -174,7 +178,7 @@ CatalogEntry(e) ==
     /\ Chk(e, "C14", "constructor_defaults",
            (known /\ Len(e.defaults) = n) => \A i \in 1..n : DefaultOk(e.defaults[i], m.args[i]))
     /\ Chk(e, "C14", "documented_defaults", (known /\ Len(e.docs) = n) => \A i \in 1..n : e.docs[i] = m.args[i].doc)
-    /\ UNCHANGED << legacy, tz >>
+    /\ UNCHANGED st
 
 PropertiesEntry(e) ==
     /\ Chk(e, "C14", "properties_names_in_order", e.slots = [i \in 1..14 |-> Properties[i].n])
@@ -184,17 +188,17 @@ PropertiesEntry(e) ==
     /\ Chk(e, "C14", "properties_defaults",
            Len(e.defaults) = 14 /\ \A i \in 1..14 :
                IF Properties[i].n = "cluster_id" THEN e.defaults[i] = MkStr(<<>>) ELSE e.defaults[i].t = "none")
-    /\ UNCHANGED << legacy, tz >>
+    /\ UNCHANGED st
 
 ClassIds == [Connection |-> 10, Channel |-> 20, Exchange |-> 40, Queue |-> 50, Basic |-> 60, Tx |-> 90, Confirm |-> 85]
 ClassEntry(e) ==
     /\ Chk(e, "C14", "class_id", e.frame_id = ClassIds[e.name] /\ e.index = ClassIds[e.name] * 65536)
-    /\ UNCHANGED << legacy, tz >>
+    /\ UNCHANGED st
 
 ReplyKeys(e) ==
     /\ Chk(e, "C17", "exactly_the_specified_codes", SeqSet(e.keys) = { ReplyCodes[i].value : i \in 1..18 } /\ Len(e.keys) = 18)
     /\ Chk(e, "C17", "one_class_per_code", Cardinality(SeqSet(e.classes)) = 18)
-    /\ UNCHANGED << legacy, tz >>
+    /\ UNCHANGED st
 
 ReplyCode(e) ==
     LET known == \E i \in 1..18 : ReplyCodes[i].value = e.key
@@ -205,7 +209,7 @@ ReplyCode(e) ==
     /\ Chk(e, "C17", "upper_case_name", known => e.name = r.name)
     /\ Chk(e, "C17", "soft_or_hard_base", known => (e.soft = (r.kind = "soft") /\ e.hard = (r.kind = "hard")))
     /\ Chk(e, "C17", "common_bases", e.amqp /\ e.base /\ e.is_exc)
-    /\ UNCHANGED << legacy, tz >>
+    /\ UNCHANGED st
 
 ConstantsEv(e) ==
     LET c == e.c k == Constants IN
@@ -215,11 +219,11 @@ ConstantsEv(e) ==
     /\ Chk(e, "C17", "frame_min_size", c.FRAME_MIN_SIZE = k.FRAME_MIN_SIZE)
     /\ Chk(e, "C17", "header_size", c.FRAME_HEADER_SIZE = k.FRAME_HEADER_SIZE)
     /\ Chk(e, "C17", "protocol_version", c.VERSION = k.VERSION /\ c.AMQP = k.AMQP)
-    /\ UNCHANGED << legacy, tz >>
+    /\ UNCHANGED st
 
 UnmarshalingExc(e) ==
     /\ Chk(e, "C17", "unmarshaling_exception_base", e.base)
-    /\ UNCHANGED << legacy, tz >>
+    /\ UNCHANGED st
 
 \* ---- frame.unmarshal on arbitrary bytes (C05, C06, C08, C09, C13) ------------
 SameDecoded(sf, cf) ==
@@ -266,7 +270,7 @@ UnmarshalEv(e) ==
     /\ Chk(e, "C08", "terminates_within_step_budget", o.r # "budget")
     /\ Chk(e, "C08", "steps_linear_in_input", e.steps <= 16 * Len(b) + 256)
     /\ Chk(e, "C08", "memory_proportional_to_input", e.peak <= 256 * Len(b) + 1048576)
-    /\ UNCHANGED << legacy, tz >>
+    /\ UNCHANGED st
 
 \* every strict prefix of a valid frame (C07)
 CutOk(c)  == c.r = "exc" /\ c.lib /\ c.type = "UnmarshalingException"
@@ -283,7 +287,7 @@ CutSet(e) ==
             IF bad2 = {} THEN -1 ELSE e.cuts[CHOOSE i \in bad2 : TRUE].k)
     /\ ChkD(e, "C07", "never_consumes_more_than_supplied", bad3 = {}, IF bad3 = {} THEN -1 ELSE e.cuts[CHOOSE i \in bad3 : TRUE].k)
     /\ Chk(e, "C07", "complete_frame_is_returned", e.full.r = "ok" /\ e.full.n = Len(b))
-    /\ UNCHANGED << legacy, tz >>
+    /\ UNCHANGED st
 
 \* header peek (C20)
 FramePartsEv(e) ==
@@ -293,7 +297,7 @@ FramePartsEv(e) ==
            (spec.ok /\ o.r = "ok") => (o.shape /\ o.type = spec.type /\ o.ch = spec.ch /\ o.size = spec.size))
     /\ Chk(e, "C20", "short_buffer_gives_no_frame_triple",
            (~spec.ok /\ o.r = "ok") => (o.shape /\ o.type = 0 /\ o.ch = 0 /\ o.size_none))
-    /\ UNCHANGED << legacy, tz >>
+    /\ UNCHANGED st
 
 \* encode a frame, peek at header + tail, read size + 8 bytes, decode (C20)
 Peek(e) ==
@@ -304,7 +308,7 @@ Peek(e) ==
     /\ Chk(e, "C20", "peeked_channel", okc => e.fp.ch = (IF e.in.cls = "Heartbeat" THEN 0 ELSE e.ch))
     /\ Chk(e, "C20", "decoder_accepts_size_plus_8_bytes",
            okc => (e.un.r = "ok" /\ e.un.n = Len(e.out.b) /\ e.un.ch = e.fp.ch /\ e.un.f.cls = e.in.cls))
-    /\ UNCHANGED << legacy, tz >>
+    /\ UNCHANGED st
 
 \* decode.embedded_value / field_table / field_array on grammar-generated bytes (C05)
 DecodeValueEv(e) ==
@@ -316,7 +320,7 @@ DecodeValueEv(e) ==
     /\ Chk(e, "C08", "steps_linear_in_input", e.steps <= 16 * Len(e.b) + 256)
     /\ Chk(e, "C05", "unrepresentable_timestamp_refused",
            (e.pos = "top" /\ Len(e.b) = 9 /\ e.b[1] = Tg.T /\ ~spec.ok) => o.r = "exc")
-    /\ UNCHANGED << legacy, tz >>
+    /\ UNCHANGED st
 
 \* ---- construction-time and marshal-time validation (C13) ---------------------
 IsProps(cls) == cls = "Basic.Properties"
@@ -334,18 +338,18 @@ Construct(e) ==
     IN
     /\ Chk(e, "C13", "valid_arguments_accepted", valid => e.out.r = "ok")
     /\ Chk(e, "C13", "broken_constraint_raises_ValueError", ~valid => (e.out.r = "exc" /\ e.out.type = "ValueError"))
-    /\ UNCHANGED << legacy, tz >>
+    /\ UNCHANGED st
 
 SetThenMarshal(e) ==
     LET m == MethodByName(e.cls) valid == Valid(m, e.in.vals) IN
     /\ Chk(e, "C13", "marshal_rejects_broken_constraint", ~valid => (e.out.r = "exc" /\ e.out.type = "ValueError"))
     /\ Chk(e, "C13", "marshal_accepts_valid_values", valid => ~(e.out.r = "exc" /\ e.out.type = "ValueError"))
-    /\ UNCHANGED << legacy, tz >>
+    /\ UNCHANGED st
 
 CharBlock(e) ==
     /\ Chk(e, "C13", "name_character_class", SeqSet(e.accepted) = { c \in e.lo..e.hi : c \in NameChars })
     /\ Chk(e, "C13", "only_ValueError", e.other = <<>>)
-    /\ UNCHANGED << legacy, tz >>
+    /\ UNCHANGED st
 
 \* ---- mapping protocol (C19) --------------------------------------------------
 Observe(e) ==
@@ -367,11 +371,64 @@ Observe(e) ==
     /\ Chk(e, "C19", "item_access", (ok /\ Len(e.getitem) = n) => \A i \in 1..n : e.getitem[i] = e.attrs[names[i]])
     /\ Chk(e, "C19", "attribute_list", ok => e.attributes = names)
     /\ Chk(e, "C19", "wire_types", ok => e.types = types)
-    /\ UNCHANGED << legacy, tz >>
+    /\ UNCHANGED st
+
+\* ---- the byte stream between a sender and a receiver (Stream.tla; C06, C07, C20) ----
+StreamReset(e) == st' = [st EXCEPT !.wire = <<>>, !.buf = <<>>, !.sent = <<>>, !.got = 0, !.used = 0]
+
+SendEv(e) ==
+    LET r == IF e.out.r = "ok" THEN Unmarshal(e.out.b) ELSE Malformed IN
+    /\ Premise(e, "sent_frame_is_a_valid_frame", e.out.r = "ok" /\ r.k = "frame" /\ r.n = Len(e.out.b))
+    /\ st' = [st EXCEPT !.wire = @ \o e.out.b, !.sent = Append(@, e.out.b)]
+
+DeliverEv(e) ==
+    /\ Premise(e, "deliver_within_wire", e.k >= 1 /\ e.k <= Len(st.wire))
+    /\ Chk(e, "C06", "receiver_buffer_length", e.buflen = Len(st.buf) + e.k)
+    /\ Chk(e, "C20", "receiver_buffer_length", e.buflen = Len(st.buf) + e.k)
+    /\ st' = [st EXCEPT !.buf = @ \o Take(st.wire, e.k), !.wire = Drop(@, e.k)]
+
+\* one receiver step on the bytes b (st.buf, or exactly the peeked frame); prop = the judging property
+DecodeStep(e, prop, b) ==
+    LET r == Unmarshal(b) o == e.out IN
+    IF r.k = "frame" THEN
+        /\ Chk(e, prop, "complete_frame_is_returned", o.r = "ok")
+        /\ Chk(e, prop, "consumes_exactly_one_frame", o.r = "ok" => o.n = r.n)
+        /\ Chk(e, prop, "frame_channel", o.r = "ok" => o.ch = r.ch)
+        /\ Chk(e, prop, "frame_content", o.r = "ok" => SameDecoded(r.f, o.f))
+        /\ Chk(e, prop, "frames_arrive_in_order", st.got < Len(st.sent) /\ Take(b, r.n) = st.sent[st.got + 1])
+        /\ st' = [st EXCEPT !.buf = Drop(@, r.n), !.got = @ + 1, !.used = @ + r.n]
+    ELSE IF r.k = "incomplete" THEN
+        /\ Chk(e, prop, "incomplete_frame_means_wait", o.r = "exc" /\ o.lib /\ o.type = "UnmarshalingException")
+        /\ UNCHANGED st
+    ELSE /\ Chk(e, prop, "envelope_truth", o.r = "ok" => EnvelopeTruth(b, o))
+         /\ st' = [st EXCEPT !.buf = IF o.r = "ok" THEN Drop(@, o.n) ELSE @]
+
+TryDecodeEv(e) ==
+    /\ Chk(e, "C06", "receiver_buffer_length", e.buflen = Len(st.buf))
+    /\ DecodeStep(e, "C06", st.buf)
+
+\* size-reading receiver: frame_parts, then exactly size + 8 bytes
+PeekReadEv(e) ==
+    LET p == FrameParts(st.buf) IN
+    /\ Chk(e, "C20", "receiver_buffer_length", e.buflen = Len(st.buf))
+    /\ IF Take(st.buf, 4) = AMQPLit THEN DecodeStep(e, "C20", st.buf)
+       ELSE IF ~p.ok THEN
+            /\ Chk(e, "C20", "short_buffer_gives_no_frame_triple", e.fp.r = "ok" /\ e.fp.size_none /\ e.out.r = "wait")
+            /\ UNCHANGED st
+       ELSE LET need == Len32(p.size) + 8 IN
+            /\ Chk(e, "C20", "peek_matches_header", e.fp.r = "ok" /\ e.fp.type = p.type /\ e.fp.ch = p.ch /\ e.fp.size = p.size)
+            /\ IF Len(st.buf) < need THEN Chk(e, "C20", "waits_for_size_plus_8", e.out.r = "wait") /\ UNCHANGED st
+               ELSE DecodeStep(e, "C20", Take(st.buf, need))
+
+Quiesce(e) ==
+    /\ Premise(e, "everything_was_delivered", st.wire = <<>>)
+    /\ Chk(e, "C06", "all_frames_received_buffer_empty", st.got = Len(st.sent) /\ st.buf = <<>> /\ e.buflen = 0 /\ e.got = st.got)
+    /\ Chk(e, "C20", "all_frames_received_buffer_empty", st.got = Len(st.sent) /\ st.buf = <<>> /\ e.buflen = 0 /\ e.got = st.got)
+    /\ UNCHANGED st
 
 ToggleArg(a) == IF a = "false" THEN FALSE ELSE TRUE      \* "true", "noarg" -> TRUE
-Toggle(e) == legacy' = ToggleArg(e.arg) /\ UNCHANGED tz
-SetTZ(e)  == tz' = e.z /\ UNCHANGED legacy
+Toggle(e) == st' = [st EXCEPT !.legacy = ToggleArg(e.arg)]
+SetTZ(e)  == st' = [st EXCEPT !.tz = e.z]
 
 Step == /\ l <= Len(Events)
         /\ l' = l + 1
@@ -398,10 +455,18 @@ Step == /\ l <= Len(Events)
              [] e.a = "SetThenMarshal" -> SetThenMarshal(e)
              [] e.a = "CharBlock"   -> CharBlock(e)
              [] e.a = "Observe"     -> Observe(e)
+             [] e.a = "StreamReset" -> StreamReset(e)
+             [] e.a = "Send"        -> SendEv(e)
+             [] e.a = "Deliver"     -> DeliverEv(e)
+             [] e.a = "TryDecode"   -> TryDecodeEv(e)
+             [] e.a = "PeekRead"    -> PeekReadEv(e)
+             [] e.a = "Quiesce"     -> Quiesce(e)
              [] e.a = "Toggle"      -> Toggle(e)
              [] e.a = "SetTZ"       -> SetTZ(e)
 
-Init == l = 1 /\ legacy = FALSE /\ tz = "UTC"
+Init == /\ l = 1
+        /\ st = [legacy |-> FALSE, tz |-> "UTC", wire |-> <<>>, buf |-> <<>>, sent |-> <<>>, got |-> 0, used |-> 0,
+                  heap |-> <<>>]
 Spec == Init /\ [][Step]_vars
 TraceConsumed == TLCGet("stats").diameter - 1 = Len(Events)
 =============================================================================
